@@ -97,7 +97,8 @@ def cases(tier, seed):
 def run_case(case):
     n = len(case['names'])
     zero = {'lat': 0.0, 'half': 0.5, 'zero': 1.0}[case['lat']]
-    layer = 'j1939-21'
+    # the claim procedure is the same on both data link layers; a quarter of the cases run on J1939-22 stacks
+    layer = case.get('layer') or ('j1939-22' if random.Random(case['seed'] ^ 0x22).random() < 0.25 else 'j1939-21')
     W = World(case['seed'], layer, (1e-5, 0.005), zero)
     sim = W.sim
     viol = M.Violations()
@@ -139,7 +140,7 @@ def run_case(case):
     W.run(20.0)
     j = W.j1939
     ST = j.ControllerApplication.State
-    obs = dict(contested_addresses=0, cannot_claim_checked=0, reclaims_checked=0, zero_latency_cases=1 if zero else 0, claim_frames=0, preempted_cases=1 if pre else 0, preemption_holds=holds[0], slow_interface_cases=1 if slow else 0, slow_sends=sum(s.slow_sends for s in W.stacks))
+    obs = dict(contested_addresses=0, cannot_claim_checked=0, reclaims_checked=0, zero_latency_cases=1 if zero else 0, claim_frames=0, fd_layer_cases=1 if layer == 'j1939-22' else 0, preempted_cases=1 if pre else 0, preemption_holds=holds[0], slow_interface_cases=1 if slow else 0, slow_sends=sum(s.slow_sends for s in W.stacks))
     M.m_live(viol, W, layer)
     tag = dict(layer=layer, lat=case['lat'])
     # claims seen on the bus: address -> set of CA indices; cannot-claim frames per CA
